@@ -201,6 +201,8 @@ _FN_RE = re.compile(r'^fn (.+?)\((.*)\) -> (.+) \{$')
 _FN0_RE = re.compile(r'^fn (.+?)\((.*)\) \{$')
 _CONST_RE = re.compile(r'^const (.+?promoted\[\d+\])(): (.+) = \{$')
 _STATIC_RE = re.compile(r'^(?:static|const) (.+?): (.+) = \{$')
+_NAMEDCONST_RE = re.compile(r'^(?:const|static) ([\w:<>{}#@ ,\.\[\]]+?)(): (.+) = \{$')
+_SIMPLECONST_RE = re.compile(r'^const (.+?): ([^=]+?) = (const .+);$')
 _BB_RE = re.compile(r'^(bb\d+)(?: \(cleanup\))?: \{$')
 
 def parse_mir(text, prefix=''):
@@ -209,7 +211,11 @@ def parse_mir(text, prefix=''):
     i, n = 0, len(lines)
     while i < n:
         L = lines[i]
-        m = _FN_RE.match(L) or _CONST_RE.match(L)
+        ms = _SIMPLECONST_RE.match(L)
+        if ms:
+            f = Fn(prefix + ms.group(1), 0); f.sig = L; f.argtys = []; f.ret = ms.group(2); f.blocks['bb0'] = ['_0 = ' + ms.group(3), 'return']
+            fns[f.name] = f; i += 1; continue
+        m = _FN_RE.match(L) or _CONST_RE.match(L) or _NAMEDCONST_RE.match(L)
         if not m:
             m0 = _FN0_RE.match(L)
             if m0: m = m0
@@ -440,7 +446,10 @@ class Exec:
             if e is not None: return lambda fr: Enum(e[0], None, e[1])
             def f(fr, body=body, s=s):
                 r = self.models.constant(self, body)
-                return r if r is not None else Opaque(('const', s))
+                if r is not None: return r
+                name = self.named_const(body)
+                if name is not None: return self.call(name, [])
+                return Opaque(('const', s))
             return f
         raise Unsupported('const? ' + s)
 
@@ -730,6 +739,13 @@ class Exec:
         return fn.compiled[bb]
 
     # ---------------- calls
+    def named_const(self, body):
+        hs = strip_turbofish(body)
+        if hs in self.fns and self.fns[hs].nargs == 0: return hs
+        last = '::'.join(hs.split('::')[-2:])
+        c = [k for k in self.fns if (k == hs or k.endswith('::' + last) or k.endswith('::' + hs.split('::')[-1]) or k == hs.split('::')[-1]) and self.fns[k].nargs == 0 and 'promoted' not in k and not self.fns[k].sig.startswith('fn ')]
+        return c[0] if len(c) == 1 else None
+
     def resolve_promoted(self, path, idx):
         if self.resolver: return self.resolver.promoted(path, idx)
         return None
